@@ -24,13 +24,16 @@ ObjNest(d) == IF d = 1 THEN <<64, 65>> ELSE <<64, 20, 1, 97>> \o ObjNest(d - 1) 
 \* {"a": "<L bytes>"} : size = 2 + 3 + 3 + L
 Big(L) == <<64, 20, 1, 97>> \o F!EncStr(Rep(113, L)) \o <<65>>
 \* {"a":"<L>","b":[1,2,{"c":true}]}
+\* d nested objects, the innermost holds an L-byte string: with L > 1000 EVERY level exceeds serialize()'s first-try buffer
+RECURSIVE NestBig(_,_)
+NestBig(d, L) == IF d = 1 THEN Big(L) ELSE <<64, 20, 1, 97>> \o NestBig(d - 1, L) \o <<65>>
 Big2(L) == <<64, 20, 1, 97>> \o F!EncStr(Rep(113, L)) \o <<20, 1, 98, 66, 16, 1, 16, 2, 64, 20, 1, 99, 68, 65, 67, 65>>
 FamilyDocs ==
   {<<>>, <<64>>, <<65>>, <<0>>, <<64, 65>>, <<66, 67>>, <<64, 65, 65>>, <<64, 65, 64, 65>>,
    \* keys that are identical up to and including an embedded 0x00, and an empty bytes value
    <<64, 20, 3, 107, 0, 97, 16, 1, 20, 3, 107, 0, 98, 16, 2, 65>>, <<64, 20, 3, 0, 97, 98, 68, 20, 2, 0, 98, 69, 65>>,
    <<64, 20, 1, 97, 24, 0, 20, 1, 98, 20, 0, 65>>} \cup
-  {ObjNest(d) : d \in {1, 2, 9, 10, 11, 12, 30}} \cup
+  {ObjNest(d) : d \in {1, 2, 9, 10, 11, 12, 30}} \cup {NestBig(d, 1100) : d \in {3, 10, 11, 40}} \cup
   {Big(L) : L \in {985, 990, 991, 992, 993, 994, 1000, 1300}} \cup {Big2(L) : L \in {970, 975, 976, 977, 978, 979, 980, 985, 990, 995, 1000, 1010, 2000}}
 
 R0 == [done |-> FALSE, ok |-> FALSE, ref |-> FALSE, same |-> TRUE, back |-> TRUE]
